@@ -307,4 +307,15 @@ def genFunc (cx : Ctx) (fn : Ir.Func) : Except GenErr HlslAst.Func :=
       | .error e => .error e
       | .ok b => .ok { name := cx.funcName fn.id, ret := rt, params := ps, body := b }
 
+/-- the function definitions of `generate_root_definitions`, in order -/
+def genProg (cx : Ctx) : List Ir.Func → Except GenErr (List HlslAst.Func)
+  | [] => .ok []
+  | fn :: r =>
+    match genFunc cx fn with
+    | .error e => .error e
+    | .ok a =>
+      match genProg cx r with
+      | .error e => .error e
+      | .ok as => .ok (a :: as)
+
 end RsslVerif.Model.GenHlsl
